@@ -86,6 +86,15 @@ def schemas_for(cls: str):
             for al, sub, pat in [(nil, nil, nil), ("ab", nil, nil), ("", nil, nil), (nil, "an", nil),
                                  ("abn", "an", nil), (nil, nil, "a+"), (nil, nil, "^b")]:
                 yield props(value=v, len=ln, min_len=mn, max_len=mx, alphabet=al, substr=sub, pattern=pat)
+        # Unicode-aware classes / boundaries, long exact lengths (beyond CPython's small-int cache), odd characters
+        for pat in (r"^\w+$", r"\d{3}", r"\bкот\b", r"(?i)^zoë$", r"^[^\W\d]+$"):
+            yield props(pattern=pat)
+        for ln in (257, 300, 1000):
+            yield props(len=ln)
+            yield props(min_len=ln)
+            yield props(max_len=ln)
+        yield props(alphabet="xyé{}%")
+        yield props(substr="é{")
     elif cls in ("BoolSchema",):
         for v in [nil, True, False]:
             yield props(value=v)
@@ -105,7 +114,8 @@ def values_for(cls: str):
     if cls == "IntSchema":
         return INTS + [1.0, "1", None]
     if cls == "StrSchema":
-        return STRS + [1, None, b"a"]
+        return STRS + [1, None, b"a", "привет", "٣٤٥", "мой кот спит", "Zoë", "ZOË", "x" * 256, "x" * 257, "x" * 300, "y" * 1000, "x" * 299,
+                       "xyé{}%", "a{b}", "100%", "line\nbreak", "'quoted\"", "\u00e9{"]
     if cls == "UUID4Schema":
         return [_uuid.UUID("12345678-1234-4234-8234-123456789abc"), _uuid.UUID("12345678-1234-1234-8234-123456789abc"),
                 _uuid.UUID(int=1), "x", None]
